@@ -131,6 +131,7 @@ def run(ctx):
     rng = ctx.rng
     reqs, exp = [], []
     marker = I.naming.HTMLMarker(element=ELEMENT)
+    earlier = []
     for i in range(ctx.budget(300, 6000)):
         if rng.random() < 0.8:
             q, d = trees.parsed_tree(ctx, rng, blank_before_colon=rng.random() < 0.3)
@@ -169,6 +170,35 @@ def run(ctx):
         oracle(ctx, q, d, ok_paths, ko_paths, outs, dict(info, q=q, printed=printed))
         if not trees.unchanged(o, snap):
             ctx.fail("the input tree was modified", info)
+        # ---- re-entrant use of the one long-lived marker: while it marks this tree (at the first membership test on
+        # the path set) the same marker marks another tree with other sets; both answers must be those of calls
+        # that do not overlap (seeded C17-F: the sets and the mode kept on the marker instead of in the context)
+        if earlier and rng.random() < 0.25:
+            eo, eok, eko, eparci, eout = rng.choice(earlier)
+            parci = rng.random() < 0.5
+            state = {"inner": None, "done": False}
+
+            class ReSet(set):
+                def __contains__(self, x, state=state):
+                    if not state["done"]:
+                        state["done"] = True
+                        state["inner"] = marker(eo, set(eok), set(eko), parcimonious=eparci)
+                    return set.__contains__(self, x)
+            try:
+                outer = marker(o, ReSet(ok_paths), ReSet(ko_paths), parcimonious=parci)
+            except Exception as e:
+                ctx.fail("HTMLMarker raised %s in a re-entrant call: %s" % (type(e).__name__, e), info)
+                outer = None
+            ctx.count("re-entrant marking")
+            if outer is not None and outer != outs[parci]:
+                ctx.fail("a marking interrupted by another call on the same marker differs from the uninterrupted one",
+                         dict(info, out=outer, expected=outs[parci]))
+            if state["inner"] is not None and state["inner"] != eout:
+                ctx.fail("a marking started while the same marker works on another tree differs from the same call "
+                         "made alone", dict(info, out=state["inner"], expected=eout))
+        if len(earlier) < 40:
+            par = rng.random() < 0.5
+            earlier.append((o, set(ok_paths), set(ko_paths), par, outs[par]))
     if ctx.model_ok:
         for r, a, e in zip(reqs, common.ask_model(reqs), exp):
             if a != e:
